@@ -1,7 +1,11 @@
 //! C11: kitty graphics output of `KittyImageHandler` (draw / erase / handle).
 //!
-//! * correspondence: Lean model `SurfModel.Kitty` must write exactly the implementation's bytes for every
-//!   event of a history (`c11 model …`); the image hash (public `Surface::hash`) travels in the request;
+//! * correspondence: the Lean model must write exactly the implementation's bytes for every event of a
+//!   history (`c11 model …`, answered by `SurfModel.KittyStream`: the handler with the payload streamed pixel
+//!   by pixel through C14's `Base64Encoder` model); the image hash (public `Surface::hash`) travels in the
+//!   request;
+//! * `c11 tables <dir> Base64Tables`: the streaming model reads the alphabet from the table compiled into the
+//!   crate — same generated file, byte for byte, as `c14 tables` writes;
 //! * oracle (Rust, this file): an independent kitty-graphics parser + RFC 4648 decoder + bookkeeping of what
 //!   a terminal holds, checking the property on the implementation's bytes;
 //! * oracle (Lean): the verified monitor `SurfModel.KittySpec.accepts` over the same trace (`c11 monitor …`)
@@ -977,8 +981,37 @@ fn id_zero_search(out: &mut Out, thorough: bool) {
     out.extra("id_zero_search", json!({"one_by_one_images_examined": examined, "alpha": 104, "found": found.get()}));
 }
 
+/// `SurfModel/Generated/Base64Tables.lean` from the current build of /repo. The model of `Base64Encoder` that
+/// `SurfModel.KittyStream` runs (C14's) takes `BASE64_ENCODE` from this file, and C11's theorems go through
+/// `C14_tables` over it, so C11's check regenerates it too. The text must stay byte-identical to what
+/// `c14 tables` (`write_tables` in c14.rs) writes: both checks write the same file.
+fn write_tables(cfg: &Cfg, names: &[String]) {
+    fn rows(l: &[u8]) -> String {
+        l.chunks(16)
+            .map(|c| format!("   {}", c.iter().map(|x| x.to_string()).collect::<Vec<_>>().join(", ")))
+            .collect::<Vec<_>>()
+            .join(",\n")
+    }
+    for name in names {
+        assert_eq!(name, "Base64Tables", "c11 generates only Base64Tables");
+        let enc = surf_n_term::encoder::verif_c14::base64_encode_table();
+        let dec = surf_n_term::decoder::verif_c14::base64_decode_table();
+        let mut s = String::new();
+        s.push_str("/-! GENERATED by `c14 tables` from the current build of /repo (hooks encoder::verif_c14, decoder::verif_c14). Do not edit. -/\n");
+        s.push_str("namespace SurfModel.Generated.Base64Tables\n\n");
+        s.push_str(&format!("/-- `BASE64_ENCODE` of src/encoder.rs -/\ndef encodeTable : List Nat := [\n{}]\n\n", rows(&enc)));
+        s.push_str(&format!("/-- `BASE64_DECODE` of src/decoder.rs -/\ndef decodeTable : List Nat := [\n{}]\n\n", rows(&dec)));
+        s.push_str("end SurfModel.Generated.Base64Tables\n");
+        std::fs::write(cfg.outdir.join(format!("{name}.lean")), s).unwrap();
+    }
+}
+
 fn main() {
     let cfg = Cfg::from_env();
+    if let Some(names) = &cfg.tables {
+        write_tables(&cfg, names);
+        return;
+    }
     let mut out = cfg.out();
     verif_harness::silence_panics();
 
